@@ -438,6 +438,7 @@ func (x *qtrans) stmts(list []ast.Stmt, en qenv, fc *qfctx, k qkont) string {
 		return done(en2)
 	case *ast.AssignStmt:
 		if x.droppedFieldReset(s, en) {
+			covSkip("TransSl."+x.t.Lean, s, "assignment to a field of a dropped type")
 			// `a.f = nil` for a field that is not part of the record (dropped type: the nesting machinery): not modelled
 			return next(en)
 		}
